@@ -174,7 +174,8 @@ def judge_c13(exp, run, stats=None):
                     continue
             else:
                 el = (RX.strip_array(tgt[0]), tgt[1], tgt[2])
-                if got_t not in (tgt, el) or not ma.is_external():
+                ok_t = (tgt, el, ("Ljava/lang/Object;", tgt[1], tgt[2])) if tgt[0].startswith("[") else (tgt,)
+                if got_t not in ok_t or not ma.is_external():
                     out.append((key, "%s: callee resolved to %r (external=%s), expected one external stub for %r "
                                 "(no analysed method has that class, name and descriptor)" % (site, got_t, ma.is_external(), tgt), caller))
                     account(cca, cma, ca, ma, off, op)
